@@ -109,6 +109,13 @@ CLAIMED = {
          "is written only by reviewed functions. The interleaving space as a whole is not explored (that is model checking).",
          "Trusted: rustc MIR of async bodies; tokio Notify / crossbeam-channel contracts; SeqCst.",
          "DESIGN.md §3 C24"),
+ "C29": ("E-TAB+E-MIR", "other", "finite-domain abstract evaluation of TestResult::passed over its syntax tree (4 expectations x 8 final states, exact for every case the code can distinguish); MIR provenance rules for per-test setup, storage cloning and reported fields",
+         "Decides: the pass/fail verdict equals the stated table on a finite domain that separates ShouldRevert(Some c) / ShouldRevert(None) / "
+         "ShouldNotRevert and Revert(c) / Revert(c') / non-revert states; every test's executor receives a TestSetup produced inside the per-test "
+         "closure and builds its interpreter on a clone of that storage; forc-test has no process-wide state; the reported condition, state and logs "
+         "are the test's own; the attribute-to-expectation mapping builds the right variants. The VM's own isolation is trusted.",
+         "Trusted: syn; rustc MIR; fuel-vm Interpreter::with_storage; MemoryStorage::clone deep-copies. Unsupported syntax in passed() is reported as ANALYSIS-ERROR, not as a violation.",
+         "DESIGN.md §3 C29"),
  "C30": ("E-MIR", "other", "typestate on path values (MIR provenance: final / sibling / other) in git::fetch, dominance of all file-system effects over the single publishing rename, guard/lock dominance in <git::Pinned as Fetch>::fetch",
          "Decides the publish discipline: nothing is created or written at or under the directory whose existence means 'complete checkout'; it comes "
          "into existence only through one fs::rename from a sibling directory, dominated by every other file-system effect of the fetch; the re-use "
